@@ -103,9 +103,12 @@ Definition gclass_eqb (a b : gclass) : bool :=
 
 (* ---- the table tying the regenerated inventory to the classes ------------------------------------ *)
 (* One row per start site, keyed by (file, enclosing function, ordinal in that function), with the class
-   of the goroutine and the tracking the model relies on (the WaitGroup expression, or "untracked"). *)
-Record row := { r_file : string; r_func : string; r_idx : nat; r_class : gclass; r_track : string }.
-Definition R f fn i c t : row := {| r_file := f; r_func := fn; r_idx := i; r_class := c; r_track := t |}.
+   of the goroutine and the tracking the model relies on (the WaitGroup expression, or "untracked"; and the
+   lock under whose RLock the registration is made, for the classes registered under lock + flag). *)
+Record row := { r_file : string; r_func : string; r_idx : nat; r_class : gclass; r_track : string;
+                r_guard : string   (* the lock whose RLock() precedes the registration in the same function, or "" *) }.
+Definition R f fn i c t : row := {| r_file := f; r_func := fn; r_idx := i; r_class := c; r_track := t; r_guard := "" |}.
+Definition Rg f fn i c t g : row := {| r_file := f; r_func := fn; r_idx := i; r_class := c; r_track := t; r_guard := g |}.
 
 Definition site_table : list row := [
   R "dht.go" "New" 0 GDhtLoop "dht.wg";
@@ -140,13 +143,13 @@ Definition site_table : list row := [
   R "fullrt/dht.go" "FullRT.updatePeerValues" 0 GOp "untracked";
   R "fullrt/dht.go" "FullRT.getValues" 0 GOp "untracked";
   R "fullrt/dht.go" "FullRT.execOnMany" 0 GOp "untracked";
-  R "fullrt/dht.go" "FullRT.bulkMessageSend" 0 GOp "wg";
+  Rg "fullrt/dht.go" "FullRT.bulkMessageSend" 0 GOp "wg" "dht.kMapLk";
   R "fullrt/dht.go" "FullRT.FindProvidersAsync" 0 GOp "untracked";
   R "fullrt/dht.go" "FullRT.FindPeer" 0 GOp "wg";
   R "records/providers_manager.go" "NewProviderManager" 0 GPmGc "untracked";
   R "records/value_store.go" "ValueStore.StartGC" 0 GVsGc "untracked";
-  R "rtrefresh/rt_refresh_manager.go" "RtRefreshManager.Start" 0 GRtLoop "r.refcount";
-  R "rtrefresh/rt_refresh_manager.go" "RtRefreshManager.Refresh" 0 GRtRequest "r.refcount";
+  Rg "rtrefresh/rt_refresh_manager.go" "RtRefreshManager.Start" 0 GRtLoop "r.refcount" "r.refcountLk";
+  Rg "rtrefresh/rt_refresh_manager.go" "RtRefreshManager.Refresh" 0 GRtRequest "r.refcount" "r.refcountLk";
   R "rtrefresh/rt_refresh_manager.go" "RtRefreshManager.pingAndEvictPeers" 0 GRtPing "wg";
   R "crawler/crawler.go" "ctxReadMsg" 0 GMsgSender "untracked";
   R "crawler/crawler.go" "DefaultCrawler.Run" 0 GCrawlWorker "wg";
@@ -155,11 +158,11 @@ Definition site_table : list row := [
   R "provider/provider.go" "New" 0 GProvRun "prov.wg";
   R "provider/provider.go" "SweepingProvider.approxPrefixLen" 0 GProvInner "wg";
   R "provider/provider.go" "SweepingProvider.sendProviderRecords" 0 GProvInner "wg";
-  R "provider/provider.go" "SweepingProvider.handleReprovide" 0 GProvWorker "s.wg";
-  R "provider/provider.go" "SweepingProvider.handleProvide" 0 GProvWorker "s.wg";
-  R "provider/provider.go" "SweepingProvider.catchupPendingWork" 0 GProvWorker "s.wg";
-  R "provider/provider.go" "SweepingProvider.provideLoop" 0 GProvWorker "s.wg";
-  R "provider/provider.go" "SweepingProvider.reprovideLateRegions" 0 GProvWorker "s.wg";
+  Rg "provider/provider.go" "SweepingProvider.handleReprovide" 0 GProvWorker "s.wg" "s.wgLk";
+  Rg "provider/provider.go" "SweepingProvider.handleProvide" 0 GProvWorker "s.wg" "s.wgLk";
+  Rg "provider/provider.go" "SweepingProvider.catchupPendingWork" 0 GProvWorker "s.wg" "s.wgLk";
+  Rg "provider/provider.go" "SweepingProvider.provideLoop" 0 GProvWorker "s.wg" "s.wgLk";
+  Rg "provider/provider.go" "SweepingProvider.reprovideLateRegions" 0 GProvWorker "s.wg" "s.wgLk";
   R "provider/provider.go" "SweepingProvider.individualProvide" 0 GProvInner "wg";
   R "provider/buffered/provider.go" "New" 0 GBufWorker "untracked";
   R "provider/dual/provider.go" "SweepingProvider.runOnBoth" 0 GProvDualHelper "untracked";
@@ -178,12 +181,16 @@ Definition site_class (s : gsite) : option gclass :=
 
 (* the tracking found in the source is the one the model relies on; a class awaited
    through a WaitGroup must be registered with one *)
+(* classes whose registration the model takes to be guarded by lock + closing flag (GuardLockFlag) *)
+Definition class_guarded (g : gclass) : bool :=
+  match g with GProvWorker | GRtLoop | GRtRequest => true | _ => false end.
 Definition track_ok (s : gsite) (r : row) : bool :=
-  String.eqb (gs_track s) (r_track r) &&
+  String.eqb (gs_track s) (r_track r) && String.eqb (gs_guard s) (r_guard r) &&
   match class_await (r_class r) with
   | AwWaitGroup => negb (String.eqb (gs_track s) "untracked")
   | _ => true
-  end.
+  end &&
+  (if class_guarded (r_class r) then negb (String.eqb (gs_guard s) "") else true).
 Definition site_covered (s : gsite) : bool :=
   match site_row s with Some r => track_ok s r | None => false end.
 
